@@ -39,18 +39,21 @@ def history_of(path, h):
 
 def run_conc(mode, histories, clients, ops, seed, nproc=8, race=False):
     """Returns dict(anomalies=[...], hist_files=[...], histories=n, operations=n, deaths=[...])."""
-    tool = ks.build_tool("conc")
+    tool = ks.build_tool("conc", race=race)
     d = common.scratch("conc-")
     per = max(1, histories // nproc)
-    out = {"anomalies": [], "hist_files": [], "histories": 0, "operations": 0, "deaths": []}
+    out = {"anomalies": [], "hist_files": [], "histories": 0, "operations": 0, "deaths": [], "races": []}
 
     def one(i):
         path = os.path.join(d, "%s-%d.ndjson" % (mode, i))
         prog = os.path.join(d, "progress-%s-%d" % (mode, i))
         open(prog, "wb").write(struct.pack("<Q", 0))
         cmd = [tool, "-mode", mode, "-seed", str(seed * 1000 + i), "-hist", str(per), "-clients", str(clients), "-ops", str(ops),
-               "-out", path, "-progress", prog, "-hbase", str(i * per)]
-        p = subprocess.run(cmd, stdout=subprocess.PIPE, stderr=subprocess.PIPE, timeout=1500)
+               "-out", path, "-progress", prog, "-hbase", str(i * per), "-pshard", str(i), "-pn", str(nproc)]
+        e = None
+        if race:    # Go's race detector: every pair of accesses to one memory location that no synchronisation orders
+            e = dict(common.env(), GORACE="halt_on_error=0 log_path=%s" % os.path.join(d, "racelog-%s-%d" % (mode, i)))
+        p = subprocess.run(cmd, stdout=subprocess.PIPE, stderr=subprocess.PIPE, timeout=1500, env=e)
         return i, path, prog, p
 
     with concurrent.futures.ThreadPoolExecutor(max_workers=nproc) as ex:
@@ -62,7 +65,7 @@ def run_conc(mode, histories, clients, ops, seed, nproc=8, race=False):
                     summ = json.loads(line[8:])
                 elif line.startswith("{"):
                     out["anomalies"].append(json.loads(line))
-            if p.returncode != 0 or summ is None:
+            if (p.returncode != 0 and not (race and p.returncode == 66 and summ is not None)) or summ is None:   # 66: the race detector's exit code
                 h = struct.unpack("<Q", open(prog, "rb").read(8))[0]
                 err = p.stderr.decode("utf-8", "replace")
                 first = [l for l in err.splitlines() if l.strip()][:1]
@@ -78,7 +81,42 @@ def run_conc(mode, histories, clients, ops, seed, nproc=8, race=False):
                 out["operations"] += summ["operations"]
                 if os.path.exists(path) and os.path.getsize(path) > 0:
                     out["hist_files"].append(path)
+    if race:
+        out["races"] = parse_race_logs(d)
     return out
+
+
+def parse_race_logs(d):
+    """DATA RACE reports of the race-detector build (GORACE log_path files in d): one record per distinct pair of code sites
+    inside the code under test: {sites: [f1, f2], count, report}."""
+    import glob, re
+    seen = {}
+    for fn in sorted(glob.glob(os.path.join(d, "racelog-*"))):
+        txt = open(fn, errors="replace").read()
+        for blk in txt.split("==================")[1:]:
+            if "WARNING: DATA RACE" not in blk:
+                continue
+            sites = []
+            for part in re.split(r"\n(?=(?:Previous )?(?:[Rr]ead|[Ww]rite|Atomic \w+) (?:at|by) )", "\n" + blk):
+                if not re.match(r"(?:Previous )?(?:[Rr]ead|[Ww]rite|Atomic)", part.strip()):
+                    continue
+                kind = part.strip().split(" at ")[0].replace("Previous ", "").lower()
+                fr = None
+                lines = part.splitlines()
+                for k, l in enumerate(lines):
+                    if "RedisGO/" in l and not l.startswith(" " * 6):
+                        fr = re.sub(r"\(\)$", "", l.strip().split("RedisGO/")[-1])
+                        break
+                if fr:
+                    sites.append(kind.split()[0] + " in " + fr)
+            if len(sites) < 2:
+                continue
+            key = " || ".join(sorted(sites[:2]))
+            if key in seen:
+                seen[key]["count"] += 1
+            else:
+                seen[key] = {"sites": sites[:2], "count": 1, "report": blk.strip()[:4000], "log": os.path.basename(fn)}
+    return list(seen.values())
 
 
 # ---- locality: linearizability is compositional per object (Herlihy & Wing), so a history of single-key commands is
@@ -86,14 +124,16 @@ def run_conc(mode, histories, clients, ops, seed, nproc=8, race=False):
 # write-only bursts on 16 keys the unsplit set is the PRODUCT of the per-key ambiguities.
 _SINGLE_KEY = {"SET", "GET", "INCR", "DECR", "INCRBY", "DECRBY", "APPEND", "SETNX", "STRLEN", "GETRANGE", "SETRANGE", "RPUSH", "LPUSH", "LPOP", "RPOP",
                "LLEN", "LRANGE", "LINDEX", "SADD", "SREM", "SCARD", "SMEMBERS", "SISMEMBER", "HINCRBY", "HGET", "HSET", "HDEL", "HLEN", "HGETALL",
-               "ZADD", "ZREM", "ZRANGE", "ZRANK", "XADD", "XRANGE", "TTL", "TYPE", "EXPIRE", "PERSIST"}
+               "ZADD", "ZREM", "ZRANGE", "ZRANK", "XADD", "XRANGE", "TTL", "TYPE", "EXPIRE", "PERSIST",
+               "HKEYS", "HVALS", "HEXISTS", "HMGET", "HSTRLEN", "HSETNX", "HINCRBYFLOAT", "HRANDFIELD", "LPOS", "LSET", "LTRIM", "LPUSHX", "RPUSHX", "LREM",
+               "SRANDMEMBER", "SPOP", "INCRBYFLOAT"}
 
 
 def _key_of(argv):
     name = bytes(argv[0]).decode("latin1").upper()
     if name in _SINGLE_KEY and len(argv) >= 2:
         return bytes(argv[1])
-    if name in ("DEL", "EXISTS") and len(argv) == 2:
+    if name in ("DEL", "EXISTS", "MGET", "SUNION", "SINTER", "SDIFF") and len(argv) == 2:
         return bytes(argv[1])
     return None
 
